@@ -941,6 +941,7 @@ class ModuleInfo:
         unmove_static_aliases(self.tree)
         unroll_reflective_loops(self.tree)
         propagate_constant_locals(self.tree)
+        inline_named_conditions(self.tree)
         inline_local_functions(self.tree)
         unfold_any_over_local_function(self.tree)
         uncache_attribute_locals(self.tree)
@@ -1398,4 +1399,74 @@ def strip_unknown_memoisations(tree, known):
             if s_ in fn.body:
                 fn.body.remove(s_)
         done.append((cname, fn.name, attr, fn.lineno))
+    return done
+
+
+def inline_named_conditions(tree):
+    """`reached = error <= tol` ... `if reached and not below: break`: a local that is bound exactly once to a condition (comparison,
+    and/or/not of conditions) and read exactly once, in the test of an `if`/`while` statement of the same block, with nothing but other
+    such condition bindings between the binding and the test, is replaced by its condition there (the short-circuit decomposition of the
+    flow graph then sees the real tests).  The order in which the conditions are evaluated is not preserved and need not be."""
+    def is_condition(e):
+        if isinstance(e, ast.Compare):
+            return True
+        if isinstance(e, ast.BoolOp):
+            return all(is_condition(v) or isinstance(v, ast.Name) for v in e.values) and any(is_condition(v) for v in e.values)
+        if isinstance(e, ast.UnaryOp) and isinstance(e.op, ast.Not):
+            return is_condition(e.operand)
+        return False
+    done = 0
+    for fn in [n for n in ast.walk(tree) if isinstance(n, (ast.FunctionDef, ast.AsyncFunctionDef))]:
+        stores, loads = {}, {}
+        for x in ast.walk(fn):
+            if isinstance(x, ast.Name):
+                (stores if isinstance(x.ctx, (ast.Store, ast.Del)) else loads).setdefault(x.id, []).append(x)
+            elif isinstance(x, (ast.Global, ast.Nonlocal)):
+                for nm in x.names:
+                    stores.setdefault(nm, []).extend([None, None])
+            elif isinstance(x, ast.arg):
+                stores.setdefault(x.arg, []).extend([None, None])
+        for node in ast.walk(fn):
+            for field in ("body", "orelse", "finalbody"):
+                block = getattr(node, field, None)
+                if not (isinstance(block, list) and block and isinstance(block[0], ast.stmt)):
+                    continue
+                changed = True
+                while changed:
+                    changed = False
+                    for k, st in enumerate(block):
+                        if not (isinstance(st, ast.Assign) and len(st.targets) == 1 and isinstance(st.targets[0], ast.Name) and is_condition(st.value)):
+                            continue
+                        nm = st.targets[0].id
+                        if len(stores.get(nm, [])) != 1 or len(loads.get(nm, [])) != 1:
+                            continue
+                        # the next statement that is not such a binding must be the if / while whose test reads the name
+                        j = k + 1
+                        while j < len(block) and isinstance(block[j], ast.Assign) and len(block[j].targets) == 1 \
+                                and isinstance(block[j].targets[0], ast.Name) and is_condition(block[j].value):
+                            j += 1
+                        if j >= len(block) or not isinstance(block[j], (ast.If, ast.While)):
+                            continue
+                        use = loads[nm][0]
+                        holder = None
+                        for cand in [block[j]] + [b for b in block[k + 1:j]]:
+                            test = cand.test if isinstance(cand, (ast.If, ast.While)) else cand.value
+                            if any(y is use for y in ast.walk(test)):
+                                holder = cand
+                        if holder is None:
+                            continue
+
+                        class _S(ast.NodeTransformer):
+                            def visit_Name(self, n_):
+                                return ast.copy_location(st.value, n_) if n_ is use else n_
+                        if isinstance(holder, (ast.If, ast.While)):
+                            holder.test = _S().visit(holder.test)
+                        else:
+                            holder.value = _S().visit(holder.value)
+                        block.remove(st)
+                        # the inlined expression's own names keep their counts; the name itself is gone
+                        loads.pop(nm, None)
+                        done += 1
+                        changed = True
+                        break
     return done
